@@ -391,6 +391,16 @@ def _rbf(x1, x2, ls, jitter=0.0):
     return torch.exp(-0.5 * d2) + jitter * (d2 == 0).to(x1.dtype)
 
 
+def _rbf_sel(x1, x2, ls, sel, jitter=0.0):
+    """RBF kernel on the input dimensions listed in the integer tensor `sel` (... x k, broadcast over the batch)"""
+    def take(x):
+        idx = sel.unsqueeze(-2)
+        d = max(idx.dim(), x.dim())
+        return torch.take_along_dim(x.reshape(*([1] * (d - x.dim())), *x.shape), idx.reshape(*([1] * (d - idx.dim())), *idx.shape), dim=-1)
+
+    return _rbf(take(x1), take(x2), ls, jitter)
+
+
 @register
 class Kernel(OpClass):
     name = "Kernel"
@@ -404,12 +414,24 @@ class Kernel(OpClass):
             return None
         return "pd" if kind == "pd" else "psd"
 
+    def make(self, rng, kind, n, m, batch, depth, dtype):
+        # int_kw: an integer keyword tensor (the active input dimensions) next to the floating hyper-parameters
+        return _base(self.name, kind, n, m, batch, dtype, rng, int_kw=rng.random() < 0.4)
+
     def build(self, spec, g, kids):
         n, m, batch = spec["n"], spec["m"], spec["batch"]
+        jit = 0.5 if spec["kind"] == "pd" else 0.0
+        if spec["opt"].get("int_kw"):
+            x1 = _cast(_randn(g, *batch, n, 3), spec)
+            x2 = x1 if spec["kind"] != "rect" else _cast(_randn(g, *batch, m, 3), spec)
+            ls = _cast(0.5 + _rand(g, *batch, 1, 2), spec)
+            sel = torch.tensor([0, 2])
+            op = _O().KernelLinearOperator(x1, x2, covar_func=_rbf_sel, num_nonbatch_dimensions={"sel": 1}, ls=ls, sel=sel, jitter=jit)
+            tens = [("x1", x1), ("ls", ls)] + ([("x2", x2)] if x2 is not x1 else [])
+            return op, _rbf_sel(x1, x2, ls, sel, jit), tens
         x1 = _cast(_randn(g, *batch, n, 2), spec)
         x2 = x1 if spec["kind"] != "rect" else _cast(_randn(g, *batch, m, 2), spec)
         ls = _cast(0.5 + _rand(g, *batch, 1, 2), spec)
-        jit = 0.5 if spec["kind"] == "pd" else 0.0
         op = _O().KernelLinearOperator(x1, x2, covar_func=_rbf, ls=ls, jitter=jit)
         tens = [("x1", x1), ("ls", ls)] + ([("x2", x2)] if x2 is not x1 else [])
         return op, _rbf(x1, x2, ls, jit), tens
@@ -994,17 +1016,21 @@ class Cat(Composite):
         s["opt"]["mode"] = "cat"
         s["opt"]["dim"] = dim
         if dim == -2:
-            k = rng.randrange(1, n)
+            # (a square first / last block - [S; B] - half of the time when the shape allows it: square blocks admit the structured
+            # classes whose products return (views of) their argument)
+            k = rng.choice([m, n - m]) if n > m and rng.random() < 0.5 else rng.randrange(1, n)
             shapes = [(k, m, batch), (n - k, m, batch)]
         elif dim == -1:
-            k = rng.randrange(1, m)
+            k = rng.choice([n, m - n]) if m > n and rng.random() < 0.5 else rng.randrange(1, m)
             shapes = [(n, k, batch), (n, m - k, batch)]
         else:
             pos = dim + L + 2
             k = rng.randrange(1, batch[pos])
             shapes = [(n, m, list(batch[:pos]) + [k] + list(batch[pos + 1:])), (n, m, list(batch[:pos]) + [batch[pos] - k] + list(batch[pos + 1:]))]
         s["children"] = [
-            _gen(rng, "rect", a, b, bb, depth - 1, dtype, deny=["Zero"] if i == 0 else []) for i, (a, b, bb) in enumerate(shapes)
+            _gen(rng, "rect", a, b, bb, depth - 1, dtype, deny=["Zero"] if i == 0 else [],
+                 **(dict(allow=["Identity", "Diag", "ConstantDiag"]) if a == b and dim in (-1, -2) and rng.random() < 0.4 else {}))
+            for i, (a, b, bb) in enumerate(shapes)
         ]
         return s
 
